@@ -30,9 +30,24 @@ LOG_TEXT = {
     "C14": ("fault_enumeration", "at every hook point inside every log operation of the replayed sequences the directory is copied (process-kill image) and combined with last-flushed file contents (power-loss images); each image is reopened with the real log.Open and judged by the TLA+ predicate RecoverOK against the specification's pre/post state of that operation", "5.C14"),
 }
 WIRE = {"C18": ("exploration", "TLC enumerates every vector of Wire.tla (grammar of every message, entry, configuration, snapshot label, replication status, task response, value file x value class per field); each vector is run through the real codecs: round trip with trailing bytes, bytes consumed = EncLen computed by the specification, every sampled proper prefix fails; TLC (WireObs) evaluates the predicates", "5.C18")}
+IDENT = {"C20": ("model_checking", "Identity.tla (dialers with an intended identity, listeners, address maps that may change at any time, pooled connections, handshake, SetIdentity and the directory lock) is exhausted by TLC for short operation sequences; TLC-generated and directed sequences (address re-use by a foreign cluster) are executed on real Serve()d nodes with the real connPool; TLC (IdentityTrace) compares every outcome and evaluates isolation on the requests observed at Raft.onRequest", "5.C20")}
 checks = []
 for p in props:
     pid = p["id"]
+    if pid in IDENT:
+        cat, text, ref = IDENT[pid]
+        checks.append({
+            "property_id": pid,
+            "quick_cmd": "python3 bin/check_ident.py %s --tier quick" % pid,
+            "thorough_cmd": "python3 bin/check_ident.py %s --tier thorough" % pid,
+            "evidence_file": "/verif/evidence/%s.json" % pid,
+            "replay_cmd_template": "python3 bin/check_ident.py %s --replay {path}" % pid,
+            "engine": "tlc-identity",
+            "level_claimed": {"category": cat, "text": text, "design_ref": ref},
+            "level_note": "3 identities in 2 clusters, 2 addresses, 2 directories, one dialer; concurrent Serve/SetIdentity on one directory are serialised by the harness (the link-then-compare lock race itself is not exercised)",
+            "technique": "explicit TLA+ spec (Identity.tla) model-checked with TLC; generated operation sequences executed on real nodes; TLC trace validation of outcomes and observed request routing",
+        })
+        continue
     if pid in WIRE:
         cat, text, ref = WIRE[pid]
         checks.append({
@@ -96,6 +111,7 @@ m = {
     "engines": [
         {"name": "tlc-raft", "path": "/verif/tla", "serves_properties": sorted(claimed),
          "kind_free_text": "TLA+ specification Raft.tla (+RaftProps property operators) checked with TLC: exhaustive bounded configs, -simulate schedule generation, RaftTrace trace validation and RaftObs observation checking of real-code recordings produced by the Layer-1 harness (/verif/harness/raft)"},
+        {"name": "tlc-identity", "path": "/verif/tla/Identity.tla", "serves_properties": ["C20"], "kind_free_text": "TLA+ spec of identity handshake / address mix-ups / storage lock; IdentityTrace conformance of real Serve()d nodes and connPool"},
         {"name": "tlc-wire", "path": "/verif/tla/Wire.tla", "serves_properties": ["C18"], "kind_free_text": "TLA+ grammar of all encodings; vectors enumerated by TLC, run through the real codecs, judged by WireObs"},
         {"name": "tlc-seglog", "path": "/verif/tla/SegLog.tla", "serves_properties": ["C13", "C14"],
          "kind_free_text": "TLA+ specification of the segmented log (SegLog.tla), SegLogTrace conformance of recordings made by /verif/harness/log on real log directories incl. crash images"},
